@@ -69,17 +69,37 @@ IMPL = {
     "intervals.interval": intervals.interval,
     "intervals.diatonic": lambda name, n, k: getattr(intervals, name)(n, k),
 }
+def _twice(fname):
+    """the same query asked twice in a row: [first answer, second answer] (an error is an answer)"""
+    from tools.framework import err_of
+    def g(k):
+        out = []
+        for _ in range(2):
+            try:
+                out.append(IMPL[fname](k))
+            except Exception as e:
+                out.append(err_of(e))
+        return out
+    return g
+for _f in ("keys.get_notes", "keys.get_key_signature", "keys.get_key_signature_accidentals", "keys.relative_major", "keys.relative_minor",
+           "keys.is_valid_key", "keys.Key"):
+    IMPL["twice:" + _f] = _twice(_f)
+
 STRFNS = ["keys.is_valid_key", "keys.get_key_signature", "keys.get_key_signature_accidentals", "keys.get_notes",
           "keys.relative_major", "keys.relative_minor", "keys.Key"]
 
 def has_model(c):
-    return True
+    return not c["fn"].startswith("twice:")
 
 def cases(tier, rng):
     import itertools
     for k in ALL:
         for f in STRFNS:
             yield Case(f, [k], "key/" + f.split(".")[1])
+    # every query asked twice in a row, for known and for unknown keys: the second answer is the first
+    for k in ["H", "h", "C##", "c##", "Fb", "db", "e#", "am", "Cmaj", "x", "B#", "a##", "G", "e", "Cb", "a#"]:
+        for f in STRFNS:
+            yield Case("twice:" + f, [k], "key/asked-twice", model=False)
     for i in list(range(-20, 21)) + [rng.randint(-2**63, 2**63) for _ in range(20)]:
         yield Case("keys.get_key", [i], "get_key/" + ("in" if -7 <= i <= 7 else "out"))
     alpha = "CcAaFf#bH"
@@ -113,6 +133,12 @@ def oracle(c, obs):
         if not -7 <= i <= 7:
             return None if obs == Err("RangeError") else "signature number outside -7..7 not rejected with RangeError"
         return None if obs == [MAJORS[i + 7], MINORS[i + 7]] else "key lookup is not the inverse of signature lookup"
+    if fn.startswith("twice:"):
+        if not (isinstance(obs, list) and len(obs) == 2):
+            return "raised"
+        inner = Case(fn[6:], a, c["tag"])
+        r = oracle(inner, obs[0]) or oracle(inner, obs[1])
+        return ("asked twice in a row: " + r) if r else None
     if fn in STRFNS:
         k = a[0]
         if k not in ALL:
